@@ -161,6 +161,7 @@ template <class T> static void session(uint64_t idx)
     bool ok = true;
     unsigned nops = 1 + rng_below(R, 6), advance = 0;
     bool key_ok = false;   /* an operation under the initial nonce matched: later mismatches are about the nonce */
+    bool renonced = false; (void)renonced;
     size_t nlen;
     fill_pattern(R, key, 20, pick_pattern(R));
     for (int i = 16; i < 20; ++i) if (key[i] == 0) key[i] = (uint8_t)(0x11 * (i - 14)); /* the last four 80pq key bytes matter */
@@ -218,6 +219,21 @@ template <class T> static void session(uint64_t idx)
             return same;          /* key path is fine, so set_nonce / set_counter stored a wrong nonce */
         };
         if (rng_below(R, 8) == 0) randomize_if_masked(o);
+        if (op > 0 && rng_below(R, 6) == 0) {
+            /* the nonce is set again on a live object (it is non-zero by now): short nonces are left-padded with zeros - length 0
+               means the all-zero nonce - and the packet counter restarts from the new value */
+            size_t nl2 = rng_below(R, 3) == 0 ? 0 : rng_below(R, 41);
+            uint8_t nb2[40];
+            rng_bytes(R, nb2, 40);
+            memset(n0, 0, 16);
+            if (rng_below(R, 4) == 0) { uint64_t ctr = rng_u64(R); o->set_counter(ctr); for (int i = 0; i < 8; ++i) n0[8 + i] = (uint8_t)(ctr >> (56 - 8 * i)); }
+            else { uint8_t *np = (uint8_t *)galloc(nl2, 1); memcpy(np, nb2, nl2); o->set_nonce(np, nl2); gfree(np); if (nl2 >= 16) memcpy(n0, nb2, 16); else memcpy(n0 + 16 - nl2, nb2, nl2); }
+            advance = 0; nonce_explicit = true; renonced = true;
+            memcpy(ni, n0, 16);
+            ref_enc(c, exp, m, mlen, ad, adlen, ni, eff);
+            c.enc(expc, &cl, m, mlen, ad, adlen, ni, eff);
+            vf_distinct("cpp|%s|re-nonce-len%s", c.name, nl2 == 0 ? "0" : nl2 < 16 ? "<16" : ">=16");
+        }
         if (mode == 0) {
             std::vector<unsigned char> got;
             if (use_ba) {
